@@ -393,6 +393,9 @@ class Interp(object):
                 return mk_int(self.ctx.opaque_fn("%s_%s" % (v.kind, attr), [z3.IntSort()], z3.IntSort())(v.z))
             if k == "opaque":
                 return Obj("%s.%s" % (v.kind, attr), {"of": v})
+            if isinstance(k, str) and k.startswith("pair:"):
+                a, b = k[5:].split(",")
+                return (self.getattr(v, a), self.getattr(v, b))
             raise PyRaise("AttributeError", "%s has no attribute %s" % (v.kind, attr))
         if isinstance(v, ExcValue):
             if attr == "args":
